@@ -15,6 +15,7 @@ import (
 	"fmt"
 	"math/rand"
 	"os"
+	"runtime/debug"
 	"runtime/metrics"
 	"sort"
 	"strings"
@@ -33,6 +34,8 @@ var vAllocMemOnce sync.Once
 
 func vAllocMemWatch() {
 	vAllocMemOnce.Do(func() {
+		// soft limit: the collector and the scavenger work harder instead of letting freed chunks pile up as RSS
+		debug.SetMemoryLimit(1 << 30)
 		go func() {
 			// mapped minus returned to the OS (the total alone only ever grows)
 			s := []metrics.Sample{{Name: "/memory/classes/total:bytes"}, {Name: "/memory/classes/heap/released:bytes"}}
